@@ -55,3 +55,44 @@ fn c08_atomic_dur_new_get_q() { new_get(1 << 12) }
 fn c08_atomic_dur_store_take_t() { store_take(1 << 32) }
 #[kani::proof]
 fn c08_atomic_dur_new_get_t() { new_get(1 << 32) }
+
+fn check_one(d: Duration) {
+    let a = AtomicDuration::new(None);
+    a.store(Some(d));
+    let r = a.take();
+    assert!(r.is_some(), "C08: a timed wait with Some(d) became 'wait for ever'");
+    let r = r.unwrap();
+    assert!(r >= d, "C08: stored time-out is shorter than requested (fires early)");
+    assert!(r <= d + Duration::from_millis(1), "C08: stored time-out is more than 1 ms late");
+    let b = AtomicDuration::new(Some(d));
+    let g = b.get();
+    assert!(g.is_some() && g.unwrap() >= d && g.unwrap() <= d + Duration::from_millis(1), "C18: socket time-out conversion wrong");
+}
+/// the boundary inputs as constants (zero, 1 ns, just below / at / above one and two
+/// milliseconds, one second +- 1 ns): decided in a second whatever arithmetic the conversion
+/// uses (a 128-bit division makes the symbolic harnesses above time out, i.e. inconclusive)
+#[kani::proof]
+fn c08_atomic_dur_boundaries() {
+    check_one(Duration::ZERO);
+    check_one(Duration::from_nanos(1));
+    check_one(Duration::from_nanos(999_999));
+    check_one(Duration::from_nanos(1_000_000));
+    check_one(Duration::from_nanos(1_000_001));
+    check_one(Duration::from_nanos(1_999_999));
+    check_one(Duration::from_nanos(2_000_000));
+    check_one(Duration::from_nanos(999_999_999));
+    check_one(Duration::new(1, 0));
+    check_one(Duration::new(1, 1));
+    check_one(Duration::new(3600, 500_000));
+    kani::cover!(true, "boundary list reached its end");
+}
+/// every duration below 3 ms (secs == 0): the sub-millisecond region the defect F1 lived in
+#[kani::proof]
+fn c08_atomic_dur_below_3ms() {
+    let nanos: u32 = kani::any();
+    kani::assume(nanos < 3_000_000);
+    let d = Duration::new(0, nanos);
+    kani::cover!(nanos == 0, "zero");
+    kani::cover!(nanos > 0 && nanos < 1_000_000, "sub-millisecond");
+    check_one(d);
+}
